@@ -27,7 +27,7 @@
 From Coq Require Import List.
 From PV Require Import Lib.Py Model.Graph Model.Trim.
 From PV Require Import Proofs.C01Base Proofs.C01Inv Proofs.C01 Proofs.C08.
-From PV Require Import Proofs.C01Weak Proofs.C08Weak.
+From PV Require Import Model.TrimKeep Proofs.C01Weak Proofs.C08Weak Proofs.C08Keep.
 Import ListNotations.
 
 (* a frozen cell is not a descendant of any input, so its from-scratch value is
@@ -145,3 +145,58 @@ Theorem C08_preserve_buried_weak_partial : forall W sem, wf W -> sem_nonblank_we
     = run_spec (tr_wb (trim W sem I O s)) sem (st_cache (tr_st (trim W sem I O s))) h.
 Proof. exact trimmed_coherent_weak. Qed.
 Print Assumptions C08_preserve_buried_weak_partial.
+
+(* ---- repair 17855a0 of /repo: walk_precedents keeps the reference cell of an
+   unbounded range whenever it walks into it.  Model/TrimKeep.v trim_keepref
+   W sem unb I O s is trim with that line; unb n = node n is such a reference
+   cell, which is a node of range kind.  The two functions give the same
+   workbook, the same frozen cells, the same value for every cell of trim's
+   cell map; the cell map of trim_keepref is larger by reference nodes that the
+   walk processed, and by nothing else *)
+Theorem C08_keepref_same : forall W sem unb, (forall m, unb m = true -> wb_range W m = true) ->
+  forall I O s,
+    tr_wb (trim_keepref W sem unb I O s) = tr_wb (trim W sem I O s) /\
+    tr_frz (trim_keepref W sem unb I O s) = tr_frz (trim W sem I O s) /\
+    (forall m, st_built (tr_st (trim W sem I O s)) m = true ->
+               st_built (tr_st (trim_keepref W sem unb I O s)) m = true /\
+               st_cache (tr_st (trim_keepref W sem unb I O s)) m
+               = st_cache (tr_st (trim W sem I O s)) m) /\
+    (forall m, st_built (tr_st (trim_keepref W sem unb I O s)) m = true ->
+               st_built (tr_st (trim W sem I O s)) m = false ->
+               unb m = true /\ tr_proc (trim W sem I O s) m = true) /\
+    (forall m, unb m = false -> st_built (tr_st (trim_keepref W sem unb I O s)) m
+                                = st_built (tr_st (trim W sem I O s)) m).
+Proof. exact keep_same. Qed.
+Print Assumptions C08_keepref_same.
+
+(* ... and every history of the property returns the same values after
+   trim_keepref as after trim (hypotheses of C08_preserve_buried_partial, the
+   most general ones), so C08_preserve, C08_preserve_machine and
+   C08_preserve_buried_partial hold for trim_keepref as they stand *)
+Theorem C08_keepref_outputs : forall W sem unb, wf W ->
+  (forall m, unb m = true -> wb_range W m = true) ->
+  forall I O s, (forall o, In o O -> o < wb_n W) ->
+  sem_nonblank W sem -> stored_ok W sem -> Inv W sem s ->
+  (forall a, In a I -> wb_input (tr_wb (trim W sem I O s)) a = true
+                       /\ st_built (tr_st (trim W sem I O s)) a = true
+                       /\ scalar_exact (st_cache (tr_st (trim W sem I O s)) a) = true) ->
+  forall h, Forall (io_op I O) h ->
+    snd (run (tr_wb (trim_keepref W sem unb I O s)) sem (tr_st (trim_keepref W sem unb I O s)) h)
+    = snd (run (tr_wb (trim W sem I O s)) sem (tr_st (trim W sem I O s)) h).
+Proof. exact keep_outputs. Qed.
+Print Assumptions C08_keepref_outputs.
+
+(* the same under the weak condition — the one a workbook that HAS such a
+   reference cell meets *)
+Theorem C08_keepref_outputs_weak : forall W sem unb, wf W ->
+  (forall m, unb m = true -> wb_range W m = true) ->
+  forall I O s, (forall o, In o O -> o < wb_n W) ->
+  sem_nonblank_weak W sem -> stored_ok W sem -> Inv W sem s ->
+  (forall a, In a I -> wb_input (tr_wb (trim W sem I O s)) a = true
+                       /\ st_built (tr_st (trim W sem I O s)) a = true
+                       /\ scalar_exact (st_cache (tr_st (trim W sem I O s)) a) = true) ->
+  forall h, Forall (io_op I O) h -> Forall (nonblank_write W) h ->
+    snd (run (tr_wb (trim_keepref W sem unb I O s)) sem (tr_st (trim_keepref W sem unb I O s)) h)
+    = snd (run (tr_wb (trim W sem I O s)) sem (tr_st (trim W sem I O s)) h).
+Proof. exact keep_outputs_weak. Qed.
+Print Assumptions C08_keepref_outputs_weak.
